@@ -23,7 +23,7 @@ import (
 )
 
 var st = stat.New("C12",
-	"Case = 1..3 scenarios run concurrently, scenario = {worker pool 0 or 1..4, queue capacity 1..64 or large, 1..4 raw client connections, per connection 0..10 pipelined requests whose handlers sleep 0..3000 ms, Shutdown(ctx) called 0..250 ms after the requests were written, ctx timeout 4..8 s, handle timeout 0 / 1 s / 2.5 s, write timeout 0 / 200 ms / 3 s}. The obligated set is measured, not assumed: per connection the first (replies already received + the server's read-but-unanswered counter, read just before Shutdown through an overlay accessor) requests in FIFO order. Oracle: every obligated request is answered (matching id) before the connection is closed; every connection receives the reconnect notification (id 0, _reconnect_) and is then closed by the server; Shutdown returns within ctx timeout + 1 s; when it returned before its context expired every obligated request must have been answered and every connection notified and closed, and it must not have waited longer than last handler end + 2 s idle rule + 1.5 s (when it ran into its context, unanswered requests are legitimate). Non-trivial = pool > 0 with more accepted requests than workers at shutdown, or >= 2 handlers mid-flight at shutdown. Distinct = distinct case JSON.",
+	"Case = 1..3 scenarios run concurrently, scenario = {server on the IPv4 or (a quarter) the IPv6 loopback address, worker pool 0 or 1..4, queue capacity 1..64 or large, 1..4 raw client connections, per connection 0..10 pipelined requests whose handlers sleep 0..3000 ms, Shutdown(ctx) called 0..250 ms after the requests were written, ctx timeout 4..8 s, handle timeout 0 / 1 s / 2.5 s, write timeout 0 / 200 ms / 3 s}. The obligated set is measured, not assumed: per connection the first (replies already received + the server's read-but-unanswered counter, read just before Shutdown through an overlay accessor) requests in FIFO order. Oracle: every obligated request is answered (matching id) before the connection is closed; every connection receives the reconnect notification (id 0, _reconnect_) and is then closed by the server; Shutdown returns within ctx timeout + 1 s; when it returned before its context expired every obligated request must have been answered and every connection notified and closed, and it must not have waited longer than last handler end + 2 s idle rule + 1.5 s (when it ran into its context, unanswered requests are legitimate). Non-trivial = pool > 0 with more accepted requests than workers at shutdown, or >= 2 handlers mid-flight at shutdown. Distinct = distinct case JSON.",
 	"requests still in the socket buffer because the accept/queue path was blocked are not obligated (the property speaks of requests already read)",
 	"interleavings of accept loop, receive loops, handlers and the shutdown poller are sampled through generated handler durations and shutdown moments")
 
